@@ -46,7 +46,7 @@ var (
 		"Symlink": true, "Getwd": true, "Chdir": true, "UserHomeDir": true, "UserConfigDir": true,
 		"UserCacheDir": true, "Getenv": true, "LookupEnv": true, "Setenv": true, "Unsetenv": true,
 		"Environ": true, "Executable": true, "Exit": true, "Stdin": true, "TempDir": true, "File": true,
-		"Hostname": true, "Getuid": true, "Geteuid": true, "ExpandEnv": true, "SameFile": true,
+		"Hostname": true, "Getuid": true, "Geteuid": true, "Getpid": true, "Getppid": true, "ExpandEnv": true, "SameFile": true,
 	}
 	// package-level functions of math/rand and math/rand/v2 (randomly seeded by the runtime in every process)
 	randFuncs = map[string]bool{"Int": true, "Intn": true, "Int31": true, "Int31n": true, "Int63": true, "Int63n": true, "Uint32": true, "Uint64": true,
